@@ -103,6 +103,36 @@ def lc_kill(rng):
             f.result(30)
         except Exception:
             pass
+def slow_blob(t, blob):
+    time.sleep(t)
+    return len(blob)
+def lc_kill_bigargs(rng):
+    # a forced shutdown while the call queue's feeder thread is writing a large task into the full pipe (finding H17)
+    from loky import ProcessPoolExecutor
+    e = ProcessPoolExecutor(2)
+    blob = b"x" * (1 << 20)
+    fs = [e.submit(slow_blob, 30, blob) for _ in range(6)]
+    time.sleep(0.8)
+    e.shutdown(wait=True, kill_workers=True)
+    for f in fs:
+        try:
+            f.result(30)
+        except Exception:
+            pass
+def lc_broken_bigargs(rng):
+    # the pool breaks while the feeder thread is blocked in the same way
+    from loky import ProcessPoolExecutor
+    e = ProcessPoolExecutor(2)
+    blob = b"x" * (1 << 20)
+    fs = [e.submit(slow_blob, 30, blob) for _ in range(6)]
+    time.sleep(0.8)
+    os.kill(list(e._processes)[0], 9)
+    for f in fs:
+        try:
+            f.result(30)
+        except Exception:
+            pass
+    e.shutdown(wait=True)
 def lc_broken_exit(rng):
     from loky import ProcessPoolExecutor
     e = ProcessPoolExecutor(2)
